@@ -53,7 +53,8 @@ Replay(rec) ==
 
 Conformance(rec) ==
   LET r == Replay(rec) IN
-  IF r.at # 0 THEN r.at
+  IF rec.end = "refused" THEN 0       \* refused before anything was pulled
+  ELSE IF r.at # 0 THEN r.at
   ELSE IF rec.deadlock THEN (IF \E th \in Threads : Enabled(th, r.fin) THEN Len(rec.events) + 1 ELSE 0)
   ELSE IF r.fin.end # rec.end \/ r.fin.delivered # rec.delivered THEN Len(rec.events) + 1
   ELSE 0
